@@ -286,14 +286,13 @@ Proof. reflexivity. Qed.
 Lemma restore_sc c s : sc (restore c s) = sc s.
 Proof. reflexivity. Qed.
 
-Lemma block_loop_ok b classes start_idx :
+Lemma block_step_ok b start_idx cont lc :
   (b_do_hook b = true -> exists stc, b_start b = Some stc /\ is_leaf stc /\ c_has_start_label (entry T stc) = true) ->
-  forall k st s0 s, stream s0 = yields (l_content st) ++ stream s -> same_cur s0 s ->
-  ok_loop b s0 (block_loop T rec b classes start_idx k st s).
+  (forall st s0 s, stream s0 = yields (l_content st) ++ stream s -> same_cur s0 s -> ok_loop b s0 (cont st s)) ->
+  forall st s0 s, stream s0 = yields (l_content st) ++ stream s -> same_cur s0 s ->
+  ok_loop b s0 (block_step T rec b start_idx cont lc st s).
 Proof.
-  intros Hh. induction k as [|k IH]; intros st s0 s ES CS; cbn [block_loop].
-  - cbn. split; discriminate.
-  - destruct (nth_error classes (l_i st)) as [lc|]; [|cbn; auto].
+  intros Hh HC st s0 s ES CS. unfold block_step.
     set (startinfo := match nth_error (l_content st) start_idx with Some t => tinfo t | None => noinfo end).
     (* the hook *)
     assert (HK : exists r, (if b_do_hook b
@@ -322,7 +321,7 @@ Proof.
       - eexists; split; [reflexivity|]. split; [cbn; auto using same_cur_refl | discriminate]. }
     destruct HK as [r [HKe [K1 K2]]]. unfold bind at 1. rewrite HKe. clear HKe. destruct r as [[[t|]|e] s1].
     + (* hook matched: append, continue *)
-      cbn in K1. destruct K1 as [E1 C1]. apply IH; cbn [l_content].
+      cbn in K1. destruct K1 as [E1 C1]. apply HC; cbn [l_content].
       * rewrite yields_snoc, <- app_assoc, <- E1. exact ES.
       * eapply same_cur_trans; eauto.
     + cbn in K1. destruct K1 as [E1 C1]. unfold bind at 1.
@@ -354,7 +353,7 @@ Proof.
           cbn. split; [discriminate | intros _; exact CS2]. }
         destruct ((match b_end b with Some _ => mem (tcls t) (b_endall b) | None => false end)
                   && b_match_labels b && negb (oN_eqb (start_label startinfo) (end_label (tinfo t)))).
-        { apply IH; cbn [l_content]; assumption. }
+        { apply HC; cbn [l_content]; assumption. }
         destruct (match b_end b with Some _ => mem (tcls t) (b_endall b) | None => false end).
         { destruct (if b_match_names b
                     then name_check b (start_name startinfo) (end_name (tinfo t)) (b_strict_names b)
@@ -365,8 +364,8 @@ Proof.
                 try destruct (b_strict_names b); congruence. }
             cbn. split; [discriminate | intros _; exact CS2].
           - cbn. auto. }
-        apply IH; cbn [l_content]; assumption.
-      * cbn in Q1. destruct Q1 as [E2 C2]. apply IH; cbn [l_content].
+        apply HC; cbn [l_content]; assumption.
+      * cbn in Q1. destruct Q1 as [E2 C2]. apply HC; cbn [l_content].
         -- rewrite E2, E1. exact ES.
         -- eapply same_cur_trans; [eapply same_cur_trans|]; eauto.
       * cbn in Q1. destruct Q1 as [_ C2]. cbn. split.
@@ -375,6 +374,25 @@ Proof.
     + cbn in K1. destruct K1 as [_ C1]. cbn. split.
       * intros ->. eapply K2; reflexivity.
       * intros He. eapply same_cur_trans; eauto.
+Qed.
+
+Lemma block_loop_ok b classes start_idx :
+  (b_do_hook b = true -> exists stc, b_start b = Some stc /\ is_leaf stc /\ c_has_start_label (entry T stc) = true) ->
+  forall k st s0 s, stream s0 = yields (l_content st) ++ stream s -> same_cur s0 s ->
+  ok_loop b s0 (block_loop T rec b classes start_idx k st s).
+Proof.
+  intros Hh. induction k as [|k IH]; intros st s0 s ES CS; cbn [block_loop].
+  - cbn. split; discriminate.
+  - destruct (nth_error classes (l_i st)) as [lc|]; [|cbn; auto].
+    unfold bind at 1.
+    assert (CM : ok_list (l_content st) s (hook_cid T rec b (l_content st) s)).
+    { unfold hook_cid. destruct (b_do_hook b); [apply add_cid_ok|]. cbn. exists []. rewrite app_nil_r. cbn.
+      auto using same_cur_refl. }
+    destruct (hook_cid T rec b (l_content st) s) as [[cm|e] s1]; cbn [ok_list] in CM.
+    + destruct CM as [extra [-> [E1 C1]]]. cbv beta iota.
+      apply block_step_ok; [exact Hh|exact IH| |eapply same_cur_trans; eauto].
+      cbn [l_content]. rewrite yields_app, <- app_assoc, <- E1. exact ES.
+    + destruct CM as [NE C1]. cbn. split; [exact NE|]. intros IE. eapply same_cur_trans; eauto.
 Qed.
 
 (* ---------------------------------------------------------------- BlockBase.match *)
